@@ -1679,6 +1679,15 @@ int32 parseServerHello(ssl_t *ssl, int32 hsLen, unsigned char **cp,
             cipher,
             PS_TRUE);
 
+    /* The server must select one of the suites we offered. */
+    if (!sslClientOfferedCipherSuite(ssl, cipher))
+    {
+        ssl->err = SSL_ALERT_ILLEGAL_PARAMETER;
+        psTraceIntInfo("Server selected a cipher we did not offer: %d\n",
+            cipher);
+        return MATRIXSSL_ERROR;
+    }
+
     /*  A resumed session can only match the cipher originally
         negotiated. Otherwise, match the first cipher that we support */
     if (ssl->flags & SSL_FLAGS_RESUMED)
